@@ -836,6 +836,7 @@ func (vc *VC) callByContract(fr *frame, st *State, ct *Contract, fo *types.Func,
 		oldH := vc.heap(old, k, srt)
 		nh := vc.fresh("H!"+k, oldH.Sort)
 		st.heaps[k] = nh
+		vc.linkHeaps(k, nh, oldH)
 		vc.frameFacts(st, k, oldH, nh, locs, old.alloc)
 		vc.heapInvariant(nh, st.alloc, st.pc)
 	}
